@@ -74,16 +74,16 @@ impl Encoder for TTYEncoder {
             DecModeGet(mode) => {
                 write!(out, "\x1b[?{}$p", mode as usize)?;
             }
-            CursorTo(pos) => write!(out, "\x1b[{};{}H", pos.row + 1, pos.col + 1)?,
+            CursorTo(pos) => write!(out, "\x1b[{};{}H", pos.row as u128 + 1, pos.col as u128 + 1)?,
             CursorMove { row, col } => {
                 match col.cmp(&0) {
                     Ordering::Greater => write!(out, "\x1b[{}C", col)?,
-                    Ordering::Less => write!(out, "\x1b[{}D", -col)?,
+                    Ordering::Less => write!(out, "\x1b[{}D", col.unsigned_abs())?,
                     _ => {}
                 }
                 match row.cmp(&0) {
                     Ordering::Greater => write!(out, "\x1b[{}B", row)?,
-                    Ordering::Less => write!(out, "\x1b[{}A", -row)?,
+                    Ordering::Less => write!(out, "\x1b[{}A", row.unsigned_abs())?,
                     _ => {}
                 }
             }
@@ -94,7 +94,12 @@ impl Encoder for TTYEncoder {
             EraseLineLeft => out.write_all(b"\x1b[1K")?,
             EraseLine => out.write_all(b"\x1b[2K")?,
             EraseScreen => out.write_all(b"\x1b[2J")?,
-            EraseChars(count) => write!(out, "\x1b[{}X", count)?,
+            EraseChars(count) => {
+                // ECH treats a zero parameter as one
+                if count > 0 {
+                    write!(out, "\x1b[{}X", count)?
+                }
+            }
             Face(face) => {
                 self.chunks.clear();
                 self.chunks.push(b"0");
@@ -178,7 +183,7 @@ impl Encoder for TTYEncoder {
                     )?;
                 }
                 for (flag, on, off) in [
-                    (face_modify.bold, b"1", b"21"),
+                    (face_modify.bold, b"1", b"22"),
                     (face_modify.italic, b"3", b"23"),
                     (face_modify.blink, b"5", b"25"),
                     (face_modify.strike, b"9", b"29"),
@@ -202,13 +207,13 @@ impl Encoder for TTYEncoder {
             Reset => out.write_all(b"\x1bc")?,
             Char(c) => write!(out, "{}", c)?,
             Scroll(count) => match count.cmp(&0) {
-                Ordering::Less => write!(out, "\x1b[{}T", -count)?,
+                Ordering::Less => write!(out, "\x1b[{}T", count.unsigned_abs())?,
                 Ordering::Greater => write!(out, "\x1b[{}S", count)?,
                 _ => (),
             },
             ScrollRegion { start, end } => {
                 if end > start {
-                    write!(out, "\x1b[{};{}r", start + 1, end + 1)?;
+                    write!(out, "\x1b[{};{}r", start as u128 + 1, end as u128 + 1)?;
                 } else {
                     write!(out, "\x1b[r")?;
                 }
@@ -223,7 +228,7 @@ impl Encoder for TTYEncoder {
                         out.write_all(b";")?;
                     }
                     for b in cap.as_bytes() {
-                        write!(out, "{:x}", b)?;
+                        write!(out, "{:02x}", b)?;
                     }
                 }
                 write!(out, "\x1b\\")?;
@@ -236,7 +241,11 @@ impl Encoder for TTYEncoder {
                     TerminalColor::Palette(index) => write!(out, "4;{};", index)?,
                 }
                 match color {
-                    Some(color) => write!(out, "{}", color)?,
+                    Some(color) => {
+                        // X color specification has no alpha component
+                        let [r, g, b] = color.to_rgb();
+                        write!(out, "#{:02x}{:02x}{:02x}", r, g, b)?
+                    }
                     None => write!(out, "?")?,
                 }
                 write!(out, "\x1b\\")?;
